@@ -26,8 +26,15 @@ def solve(formula, display=True, log=False, params={}):
     except AttributeError:
         pass
 
-    bool_idx = [i for i in range(len(formula.vtype)) if formula.vtype[i] == 'B']
-    int_idx = [i for i in range(len(formula.vtype)) if formula.vtype[i] == 'I']
+    # ECOS_BB mishandles models with both boolean and integer index lists:
+    # binaries are passed as integers with bounds clipped to [0, 1]
+    bool_idx = []
+    int_idx = [i for i in range(len(formula.vtype)) if formula.vtype[i] in 'BI']
+    is_bin = (formula.vtype == 'B')
+    lb = np.array(formula.lb, dtype=float)
+    ub = np.array(formula.ub, dtype=float)
+    lb[is_bin] = np.maximum(lb[is_bin], 0)
+    ub[is_bin] = np.minimum(ub[is_bin], 1)
 
     cols = formula.linear.shape[1]
     eq_idx = np.argwhere(formula.sense == 1).flatten()
@@ -38,12 +45,12 @@ def solve(formula, display=True, log=False, params={}):
 
     Gl = formula.linear[ineq_idx]
 
-    zlb_idx = np.argwhere(formula.lb > -np.inf).flatten()
+    zlb_idx = np.argwhere(lb > -np.inf).flatten()
     num_zlb = len(zlb_idx)
     Glb = sp.csr_matrix((-np.ones(num_zlb),
                          (np.arange(num_zlb, dtype='int'), zlb_idx)),
                         (num_zlb, cols))
-    zub_idx = np.argwhere(formula.ub < np.inf).flatten()
+    zub_idx = np.argwhere(ub < np.inf).flatten()
     num_zub = len(zub_idx)
     Gub = sp.csr_matrix((np.ones(num_zub),
                          (np.arange(num_zub, dtype='int'), zub_idx)),
@@ -70,8 +77,8 @@ def solve(formula, display=True, log=False, params={}):
 
     G = sp.csc_matrix(sp.vstack([Gl, Glb, Gub] + Gsc + Gec))
     h = np.hstack((formula.const[ineq_idx],
-                   -formula.lb[zlb_idx],
-                   formula.ub[zub_idx],
+                   -lb[zlb_idx],
+                   ub[zub_idx],
                    np.zeros(sum(sc_dim)), np.zeros(len(xmat)*3)))
 
     dims = {'l': num_ineq + num_zlb + num_zub,
